@@ -107,6 +107,16 @@ Theorem C17_xdev_exact : forall fuel fs name tmp cs path r fs' ok,
 Proof. exact serialize_xdev_exact. Qed.
 Print Assumptions C17_xdev_exact.
 
+(* the same with the premise over the tree before the call: r is where the destination's chain of links ends then *)
+Theorem C17_xdev_exact_before : forall fuel fs name tmp cs path r fs' ok,
+  dest_path name = Some path -> lget fs tmp = None ->
+  lresolve fuel fs path = Some r -> r <> tmp ->
+  serialize_to_lx fuel fs name tmp cs NoFault = (fs', ok) ->
+  ok = true /\ lget fs' r = Some (EFile (cat cs)) /\ lread fuel fs' path = Some (cat cs) /\
+  (forall p, p <> r -> lget fs' p = lget fs p).
+Proof. exact serialize_xdev_exact_before. Qed.
+Print Assumptions C17_xdev_exact_before.
+
 Theorem C17_xdev_link_kept : forall fuel fs name tmp cs path q r fs' ok,
   dest_path name = Some path -> lget fs tmp = None ->
   lget fs path = Some (ELink q) ->
